@@ -942,8 +942,10 @@ Exit(a) ==                                 \* end of the async block: Ok(actor),
   /\ UNCHANGED <<cli, reg, now, hst>>
 
 \* fault: the runtime drops the task while it is suspended (runtime shutdown, smol handle drop)
+\* (only where the loop future can be suspended: between Dequeue and the handler, or between stopped(),
+\* notify() and the return, there is no await)
 Cancel(a) ==
-  /\ act[a].pc \notin {"unborn", "done", "failed"}
+  /\ act[a].pc \notin {"unborn", "done", "failed", "dequeued", "stopped", "notified", "rs_mid"}
   /\ Fail(a, "cancel")
 
 \* continuation of the actor's own nested operation (registry lock, ping of a fresh broker, ...)
